@@ -38,6 +38,10 @@ func c16Gen(class string, seed uint64, tier string) *vfScenario {
 		if rng.IntN(3) == 0 {
 			sc.Cfg["names"] = 3 // long names: one batch of 128 entries is larger than a data packet
 		}
+		if rng.IntN(4) == 0 {
+			// a server configured with a raised maximum data payload, up to values at which 32-bit products wrap
+			sc.Cfg["maxtx"] = int64([]int64{32769, 65536, 262144, 1 << 20, 1 << 24, 1 << 25, 1<<25 + 100, 1 << 26, 1 << 30, 1 << 31, 1<<32 - 1}[rng.IntN(11)])
+		}
 	case "rs", "rs-alloc":
 		sc.Cfg["kind"] = 1
 		if class == "rs-alloc" {
